@@ -48,7 +48,8 @@ Inductive dop :=
 | DEq (o : pyval)
 | DNe (o : pyval)
 | DOr (src : dsource)                       (* p | src : a plain dict *)
-| DNew (src : dsource).                     (* DictProxy(cfg, field, src): a new typed dict *)
+| DNew (src : dsource)                      (* DictProxy(cfg, field, src): a new typed dict *)
+| DAssign (src : dsource).                  (* cfg.field = src : whole-value assignment through DictField._validate *)
 
 Definition ds_items (self : pairs) (src : dsource) : pairs :=
   match src with
@@ -157,6 +158,8 @@ Definition b_dstep (s : pairs) (op : dop) : pairs * res pyval :=
            end
   | DNew src =>                         (* dict(src): a dict argument is cloned, anything else is a run of assignments *)
       (s, Ok (PDict 0 (if ds_isdict src then ds_items s src else upd [] (ds_items s src))))
+  | DAssign src =>                      (* x = dict(src) *)
+      ((if ds_isdict src then ds_items s src else upd [] (ds_items s src)), Ok PNone)
   end.
 
 (* ------------------------------------------------------------------------------------------ *)
@@ -236,6 +239,7 @@ Definition dop_entry (op : dop) : string :=
   | DNe _ => "__ne__"
   | DOr _ => "__or__"
   | DNew _ => "__init__"
+  | DAssign _ => "__init__"
   end.
 Close Scope string_scope.
 
@@ -409,6 +413,16 @@ Section DProxy.
         | Err e => (s, Err e)
         | Unmodelled => (s, Unmodelled)
         end
+    | DAssign src =>
+        (* DictField._validate: dict instances only (anything else: not modelled here), then DictProxy(cfg, self,
+           value): the RECEIVING field validates every entry unless the value is a proxy of this very field *)
+        if ds_isdict src then
+          match dp_init (ds_samefield src) (ds_items s src) with
+          | Ok c => (c, Ok PNone)
+          | Err e => (s, Err e)
+          | Unmodelled => (s, Unmodelled)
+          end
+        else (s, Unmodelled)
     | DEq o =>                         (* not a dict -> False, else dict.__eq__ *)
         match o with
         | PDict _ _ => b_dstep s (DEq o)
@@ -439,6 +453,8 @@ Section DProxy.
     | DSetDefault k v => DSetDefault (dnorm1 VK k) (Some (dnorm1 VV (opt_or_none v)))
     | DNew src => if ds_samefield src then DNew (DSDict (ds_items s src))
                   else DNew (DSPairs (map norm_pair (ds_items s src)))
+    | DAssign src => if ds_samefield src then DAssign (DSDict (ds_items s src))
+                     else DAssign (DSPairs (map norm_pair (ds_items s src)))
     | _ => op
     end.
 
@@ -452,6 +468,7 @@ Section DProxy.
     | DIOr src => src_ok s src
     | DSetDefault k v => pair_ok (k, opt_or_none v)
     | DNew src => ds_samefield src || forallb pair_ok (ds_items s src)
+    | DAssign src => ds_isdict src && (ds_samefield src || forallb pair_ok (ds_items s src))
     | _ => true
     end.
 
@@ -473,11 +490,11 @@ Definition dchecked (s : pairs) (op : dop) : pairs :=
   | DSetDefault k v => [(k, opt_or_none v)]
   | DUpdate src kw => (if ds_compat src then [] else ds_items s src) ++ kw
   | DIOr src => if ds_compat src then [] else ds_items s src
-  | DNew src => if ds_samefield src then [] else ds_items s src
+  | DNew src | DAssign src => if ds_samefield src then [] else ds_items s src
   | _ => []
   end.
 Definition dop_validating (op : dop) : bool :=
-  match op with DSetItem _ _ | DSetDefault _ _ | DUpdate _ _ | DIOr _ | DNew _ => true | _ => false end.
+  match op with DSetItem _ _ | DSetDefault _ _ | DUpdate _ _ | DIOr _ | DNew _ | DAssign _ => true | _ => false end.
 
 (* the key of the first pair that is not acceptable *)
 Fixpoint first_bad (VK VV : pyval -> res pyval) (ps : pairs) : option pyval :=
